@@ -4,6 +4,7 @@ pub mod c05;
 pub mod c08;
 pub mod c09;
 pub mod c12;
+pub mod c13;
 pub mod c15;
 pub mod c17;
 pub mod part;
